@@ -35,13 +35,22 @@ static int next_pow2(int n) { int p = 1; while (p < n) p *= 2; return p; }
 struct Universe {
     int H;
     Env env;
-    IRaster npop;
+    IRaster npop, others;
+    bool via_others = false;   // the environment derives the total population itself: other individuals + all hosts
     DRaster weather;
     std::vector<std::unique_ptr<HostState>> hs;
     std::vector<std::unique_ptr<Pool>> pools;
     std::unique_ptr<PestHostTable<Pool>> pht;
     std::unique_ptr<CompetencyTable<Pool>> ct;
-    Universe(int H_) : H(H_), npop(1, 2, 1), weather(1, 2, 1.0) {}
+    Universe(int H_) : H(H_), npop(1, 2, 1), others(1, 2, 0), weather(1, 2, 1.0) {}
+    // total population N at cell a, through whichever path this universe uses
+    void set_population(int a, int N) {
+        npop(0, a) = N;
+        // Environment::total_population_at = other individuals + sum over hosts of total_hosts_at, and
+        // HostPool::total_hosts_at is documented to count susceptible + infected only (not exposed, not resistant)
+        int hosts = 0; for (auto& h : hs) hosts += h->s(0, a) + h->i(0, a);
+        others(0, a) = N - hosts;
+    }
     std::string state() const {
         std::ostringstream o;
         for (auto& h : hs) o << " |" << h->cells();
@@ -52,7 +61,7 @@ struct Universe {
 struct HostCfg { bool sei; int latency, ne, nm; bool sto; int pest64; int rr4; };
 
 static void build_pools(Universe& u, const std::vector<HostCfg>& hc, bool use_weather) {
-    u.env.set_total_population(&u.npop);
+    if (u.via_others) u.env.set_other_individuals(&u.others); else u.env.set_total_population(&u.npop);
     if (use_weather) u.env.update_weather_coefficient(u.weather);
     for (size_t k = 0; k < hc.size(); k++) {
         auto& h = *u.hs[k];
@@ -247,6 +256,8 @@ static void pool_case(Case& c) {
 
     // ---- pools
     Universe U(H);
+    U.via_others = c.index % 3 == 1;   // a third of the cases: Environment::set_other_individuals instead of set_total_population
+    stats.add(U.via_others ? "population_via_other_individuals" : "population_via_total_population");
     for (int k = 0; k < H; k++) {
         U.hs.emplace_back(new HostState(1, 2, hc[(size_t)k].ne, hc[(size_t)k].nm));
         U.hs.back()->randomize(rng, hc[(size_t)k].sei);
@@ -271,6 +282,7 @@ static void pool_case(Case& c) {
     std::unique_ptr<Provider> prov2;
     if (H == 1) {
         T.reset(new Universe(1));
+        T->via_others = U.via_others;
         T->hs.emplace_back(new HostState(1, 2, hc[0].ne, hc[0].nm));
         copy_state(*U.hs[0], *T->hs[0]);
         T->hs[0]->suitable = U.hs[0]->suitable;
@@ -325,7 +337,7 @@ static void pool_case(Case& c) {
             };
             if (!pow2(N) && tie(N)) { N = next_pow2(N); stats.add("dispto_tie_made_exact"); }
             if (pow2(N) && tie(N)) stats.add("dispto_exact_tie");
-            U.npop(0, a) = N; U.weather(0, a) = w64 / 64.0;
+            U.set_population(a, N); U.weather(0, a) = w64 / 64.0;
             // what std::discrete_distribution returns for these weights and this uniform
             std::string pick = "-";
             if (H >= 2) {
@@ -347,7 +359,7 @@ static void pool_case(Case& c) {
             if (H == 1) {
                 // the same call on the bare host over an identical copy
                 copy_state(*U.hs[0], *T->hs[0]);
-                T->npop(0, a) = N; T->weather(0, a) = w64 / 64.0;
+                T->set_population(a, N); T->weather(0, a) = w64 / 64.0;
                 ScriptedEngine& e2 = prov2->establishment();
                 e2.script.clear(); e2.push_uniform_64ths(u64);
                 unsigned long b0 = e2.calls;
